@@ -775,6 +775,9 @@ pub fn run(ctx: &Ctx) {
 }
 
 pub fn replay(ctx: &Ctx, case: &Value) {
+    if crate::fuzzdrv::replay(ctx, case) {
+        return;
+    }
     let v = match case["kind"].as_str() {
         Some("nodeinfo") => match serde_json::from_value::<NiDesc>(case["desc"].clone()) {
             Ok(d) => check_nodeinfo(ctx, &d),
